@@ -127,7 +127,16 @@ func c09SpecialSeq(g *gen.G, which int) *c09Seq {
 	case 6:
 		// an earlier change puts captured code under an operator that needs parentheses around it; the later change
 		// spells those parentheses: it matches the file the earlier change would write, so it matches in the combined run
-		switch g.R.Intn(5) {
+		switch g.R.Intn(7) {
+		case 5, 6:
+			// a conversion built from a captured type: the printed file has parentheses around a function type, a
+			// pointer type and a receive-only channel type, and the later change spells them
+			tx := []gen.MetaVar{{Name: "t", Kind: "expression"}, {Name: "x", Kind: "expression"}}
+			uy := []gen.MetaVar{{Name: "u", Kind: "expression"}, {Name: "y", Kind: "expression"}}
+			c1 := mk("expr", "c09-generates-conversion", tx, nil, "convert(«t», «x»)", "«t»(«x»)")
+			c2 := mk("expr", "c09-spells-the-parentheses", uy, nil, "(«u»)(«y»)", "cast(«u», «y»)")
+			return &c09Seq{changes: []*gen.Change{c1, c2}, roles: []string{"generates-conversion", "spells-the-parentheses"}, base: c1,
+				extra: []string{"convert(func() int, %s)", "convert(*T, %s)", "convert(<-chan int, %s)", "convert(func(int), %s)", "convert([]byte, %s)"}}
 		case 3:
 			// the replacement itself is an operator expression and lands under an operator of the untouched code that
 			// binds tighter: the parentheses stand between untouched parent and generated child
